@@ -544,7 +544,6 @@ func ssautilAll(w *World) map[*ssa.Function]bool {
 	return out
 }
 
-
 // valuesAfter: the values v can stand for on the paths that run through call (following kept edges): like valuesUnder,
 // but an edge of a join whose source block cannot be reached from the call is left out - it belongs to a path on which
 // the call was never made (an earlier failure that shares the return statement).
